@@ -58,7 +58,10 @@ def gen_simulated(cap: int, kind: str, depth: int, num: int, seed: int, name: st
 def _task(a) -> Tuple[int, List[Dict[str, Any]]]:
     (idx, kind, cap, hist, pathset, base, alive) = a
     root = os.path.join(base, "s%d" % idx)
-    return (idx, storedrv.run_history(kind, cap, hist, root, KEYS, NONE_KEYS, PATHSETS[pathset], alive))
+    handles = 1
+    if kind.endswith("@2"):      # two store objects over the same directories
+        (kind, handles) = (kind[:-2], 2)
+    return (idx, storedrv.run_history(kind, cap, hist, root, KEYS, NONE_KEYS, PATHSETS[pathset], alive, handles))
 
 
 def run_all(tasks: List[Tuple[str, int, List[Dict[str, Any]], str, bool]]) -> List[List[Dict[str, Any]]]:
@@ -225,13 +228,14 @@ def run_c08(tier: str) -> int:
         for (i, h) in enumerate(hs):
             pss = list(PATHSETS) if (tier == "thorough" or i % 3 == 0) else [list(PATHSETS)[i % 3]]
             for ps in pss:
-                for (real_kind, cap) in ([(kind, 0)] + ([(kind, 2)] if i % 4 == 0 or tier == "thorough" else [])):
+                for (real_kind, cap) in ([(kind, 0)] + ([(kind, 2)] if i % 4 == 0 or tier == "thorough" else [])
+                                         + ([("local@2", 0)] if kind == "local" and (i % 2 == 0 or tier == "thorough") else [])):
                     tasks.append((real_kind, cap, h, ps, False))
                     meta.append((kind, ps))
     results = run_all(tasks)
     nontriv = set()
     for ((kind, cap, h, ps, _), res) in zip(tasks, results):
-        sname = kind + ("+lru%d" % cap if cap else "")
+        sname = kind.replace("@2", "-two-handles") + ("+lru%d" % cap if cap else "")
         if any(x["op"] in ("sync",) for x in h) and any(x["op"] == "fetch_paths" and x["ans"][0] == "M" for x in h):
             nontriv.add((sname, ps, json.dumps(h)))
         for (j, (x, o)) in enumerate(zip(h, res)):
@@ -432,10 +436,12 @@ def replay_file(prop: str, path: str) -> int:
         return 1
     store = d["store"]
     (kind, cap) = (store.split("+lru")[0], int(store.split("+lru")[1]) if "+lru" in store else 0)
+    handles = 2 if kind.endswith("-two-handles") else 1
+    kind = kind.replace("-two-handles", "")
     ps = d.get("pathset") or PATHSETS["depth"]
     pmap = {int(k): v for (k, v) in ps.items()}
     root = common.sub_scratch("replay_one")
-    res = storedrv.run_history(kind, cap, d["ops"], os.path.join(root, "w"), KEYS, NONE_KEYS, pmap)
+    res = storedrv.run_history(kind, cap, d["ops"], os.path.join(root, "w"), KEYS, NONE_KEYS, pmap, handles=handles)
     bare = storedrv.run_history(kind, 0, d["ops"], os.path.join(root, "b"), KEYS, NONE_KEYS, pmap)
     bad = 0
     for (x, o, b) in zip(d["ops"], res, bare):
